@@ -56,7 +56,9 @@ func stallMix(rng *rand.Rand, tag string, n int, getStream bool, huge int) []sta
 			return fmt.Sprintf(`{"jsonrpc":"2.0","id":%s,"method":"tools/call","params":{"name":"echo","arguments":{"nonce":"n%d","pad_n":%d}}}`, id, i, stallBig)
 		}},
 		{"result-small", func(id, _ string, i int) string { return fmt.Sprintf(`{"jsonrpc":"2.0","id":%s,"method":"ping"}`, id) }},
-		{"result-list", func(id, _ string, i int) string { return fmt.Sprintf(`{"jsonrpc":"2.0","id":%s,"method":"tools/list"}`, id) }},
+		{"result-list", func(id, _ string, i int) string {
+			return fmt.Sprintf(`{"jsonrpc":"2.0","id":%s,"method":"tools/list"}`, id)
+		}},
 		{"error-unknown-method", func(_, bigid string, i int) string {
 			return fmt.Sprintf(`{"jsonrpc":"2.0","id":%s,"method":"no/such-%d"}`, bigid, i)
 		}},
